@@ -22,6 +22,7 @@ type Probe struct {
 	Vals    string    // rendered values
 	Trees   []*tree.T // structural snapshots taken at probe time
 	Steps   int64
+	Total   int64 // Runtime.TotalSteps() at probe time (lifetime counter, never reset)
 	Height  int
 	Nesting int
 }
@@ -176,7 +177,7 @@ func (r *R) addProbes(env *lisp.LEnv) {
 			for _, v := range a.Cells[1:] {
 				trees = append(trees, tree.FromLVal(v))
 			}
-			r.Trace = append(r.Trace, Probe{Tag: t, Vals: sb.String(), Trees: trees, Steps: e.Runtime.Steps(),
+			r.Trace = append(r.Trace, Probe{Tag: t, Vals: sb.String(), Trees: trees, Steps: e.Runtime.Steps(), Total: e.Runtime.TotalSteps(),
 				Height: len(e.Runtime.Stack.Frames), Nesting: e.Runtime.EvalNesting()})
 			if r.OnProbe != nil {
 				r.OnProbe(t)
